@@ -1008,6 +1008,16 @@ def sec_landscape_upsampled(rec, kind="zncc", box=(6, 5, 7), axis=0, u=4, others
         rec.fact(f"{tag}/runs", False, key=f"C04/{kind}/landscape-upsampled-raises", detail={"exc": repr(paths[0].exc)[:200] if paths else "no path"}, reproduced=rpl({})[0])
 
 
+def sec_candidates(rec, patches=None):
+    """with several templates (and no rotation search) every template is correlated with the sub-volume under the shared mask: the bank of (template, mask) pairs is complete and
+    every pair is scored once (executed by C06's ordering and decode sections for T = 2, K = 1 and T = 2, K = 2)"""
+    from .c06 import sec_ordering, sec_decode
+
+    for T, K in ((2, 1), (2, 2)):
+        sec_ordering(rec, T=T, K=K, patches=patches)
+        sec_decode(rec, T=T, K=K, patches=patches)
+
+
 def sec_sampling_rule(rec, patches=None):
     """the sub-volume handed to the model is the tomogram sampled on the molecule's grid, also when the crop window crosses a face of the tomogram (executed by C02's sampling section)"""
     from .c02 import sec_sampling
@@ -1024,7 +1034,7 @@ def sec_loader_units(rec, patches=None):
 
 def sections(tier):
     q = quick(tier)
-    secs = [("loader-units", "checks.c04", "sec_loader_units", {}), ("sampling-rule", "checks.c04", "sec_sampling_rule", {})]
+    secs = [("loader-units", "checks.c04", "sec_loader_units", {}), ("sampling-rule", "checks.c04", "sec_sampling_rule", {}), ("multi-template-bank", "checks.c04", "sec_candidates", {})]
     sem_shapes = (((1, 1, 3), 2), ((1, 2, 2), 1), ((2, 1, 2), 0)) if q else (((1, 1, 3), 2), ((1, 2, 2), 1), ((2, 1, 2), 0), ((1, 1, 4), 2), ((3, 1, 1), 0), ((1, 3, 2), 1), ((2, 2, 2), 0), ((2, 2, 3), 2), ((1, 2, 4), 2))
     for kind in ("zncc", "ncc"):
         for shape, axis in sem_shapes:
